@@ -258,6 +258,7 @@ func runC09(w *mc.Worker) {
 		vl = 3
 	}
 	runVarSeqSpace(w, fmt.Sprintf("vars-L%d", vl), 2, vl, func(c *seqCase, vars map[string]string, bal env.Bal) { c09Check(w, c, bal, false, vars) })
+	runEdgeSeqSpace(w, fmt.Sprintf("edge-L%d", vl+1), 2, vl+1, func(c *seqCase, bal env.Bal) { c09Check(w, c, bal, false) })
 	core := append(append([]op{}, coreOps()[:22]...), metaOps()...)
 	if w.Tier == "quick" {
 		seq("seq-L2", "all sequences of length 2 over the 35-statement alphabet (28 money statements + 7 metadata calls, <= 2 deviations) x 30 sheets, every split", 2, 2, 2, sheetsQ)
